@@ -515,6 +515,23 @@ class Lib:
             run.assume(so.forall(d.ksort, lambda k: Implies(d.dom[k], res.val[k] == z3.substitute(val, (x, k)))))
             res.defined_from = d
             return res
+        if (isinstance(src, SGraph) or (isinstance(src, tuple) and src and src[0] == 'gnodes')) and isinstance(g.target, ast.Name) \
+                and isinstance(e.key, ast.Name) and e.key.id == g.target.id and not g.ifs:
+            # {node: expr for node in G.nodes()} : total map over the node set
+            U = so.U()
+            x = fresh('dk', U)
+            le = _ChainEnv(env)
+            le[g.target.id] = x
+            guard = self.protect_doms(run, env)
+            try:
+                val = run.ev(e.value, le)
+            finally:
+                self.restore_doms(run, guard)
+            if not z3.is_expr(val):
+                raise Unsupported('dict comprehension value at line %d' % e.lineno)
+            res = SDict(U, val.sort(), dom=z3.K(U, BoolVal(True)), name='dcomp')
+            run.assume(so.forall(U, lambda k: res.val[k] == z3.substitute(val, (x, k))))
+            return res
         if isinstance(src, tuple) and src and src[0] == 'keys':
             src = src[1]
         if not (isinstance(src, SDict) and isinstance(g.target, ast.Name) and isinstance(e.key, ast.Name) and e.key.id == g.target.id):
@@ -720,7 +737,7 @@ class Lib:
                                      pats=(lambda k: [d.val[k]]) if (not so.is_finite_sort(d.ksort) and z3.is_const(d.val)) else None))
                 if z3.is_true(z3.simplify(so.forall(d.ksort, lambda k: d.dom[k]))) or d.name == 'degree':
                     C.count_of = d.val
-                    if so.Mode.finite:
+                    if so.Mode.finite and d.vsort == I:
                         run.assume(so.forall_idx(IntVal(so.Mode.lmax + 1), lambda x: C.val[x] == so.cnt(d.val, x)))
                     else:
                         run.assume(so.forall(d.vsort, lambda x: C.val[x] == so.cnt(d.val, x)))
@@ -765,6 +782,9 @@ class Lib:
                 if r is not None:
                     return r
             raise Unsupported('sum over a generator at line %d' % lineno)
+        if isinstance(v, (SDict, SSet, SList)):
+            # sum over a collection whose content is not modelled arithmetically: some real number (sound havoc)
+            return fresh('sum_unknown', R)
         raise Unsupported('sum(%r)' % (v,))
 
     # ----------------------------------------------------------------------------------------------
@@ -922,7 +942,22 @@ class Lib:
                 raise Unsupported('numpy dot')
             raise Unsupported('list method %s' % attr)
         if isinstance(recv, _EmptyList):
+            if attr == 'append' and len(args) == 1:
+                # the untyped [] takes its element type from the first element appended (object identity is kept)
+                x = args[0]
+                if z3.is_expr(x):
+                    recv.__class__ = SList
+                    SList.__init__(recv, x.sort(), n=IntVal(1), a=z3.Store(fresh('lit_a', z3.ArraySort(I, x.sort())), IntVal(0), x), name='lit')
+                else:
+                    recv.__class__ = _PyList
+                    recv.items = [x]
+                return NONE
             raise Unsupported('method %s on an untyped list literal at line %d (declare it in the contract locals)' % (attr, lineno))
+        if isinstance(recv, _PyList):
+            if attr == 'append' and len(args) == 1:
+                recv.items.append(args[0])
+                return NONE
+            raise Unsupported('method %s on a python-level list at line %d' % (attr, lineno))
         if isinstance(recv, SDictOfLists):
             if attr == 'items':
                 return ('items', recv)
@@ -944,6 +979,8 @@ class Lib:
                 return ('keys', recv)
             if attr == 'values':
                 return ('values', recv)
+            if attr == 'copy':
+                return recv.snap()
             raise Unsupported('dict method %s' % attr)
         if isinstance(recv, SSet):
             if attr == 'add':
